@@ -473,7 +473,8 @@ func (g *gen) builtin(x *ssa.Call, b *ssa.Builtin, st State, reach string) strin
 			k, _ := mapKV(args[0].Type())
 			_, _, size := g.ctx.mapCompsT(args[0].Type())
 			n := g.define(x.Name(), "Int", "(ite (= "+v.T+" 0) 0 (select "+g.stGet(st, size)+" "+v.T+"))")
-			g.ctx.assume("(>= " + n + " 0)")
+			// a map holds at most as many entries as fit in memory (same bound as slice lengths)
+			g.ctx.assume("(and (>= " + n + " 0) (<= " + n + " 4611686018427387904))")
 			// a Go map's length is the cardinality of its key set; the one consequence used by code that
 			// prunes empty index entries is: len(m) == 0 iff m has no key (true of every real map)
 			ks := g.ctx.sortOf(k)
